@@ -32,6 +32,7 @@ pub struct DocApp {
 
 pub struct State {
     pub mt: Option<tokio::runtime::Runtime>,
+    pub net_batches: usize,
     pub pki: Option<Arc<crate::net::Pki>>,
     pub net_cache: std::collections::HashMap<usize, String>,
     pub rt: tokio::runtime::Runtime,
@@ -585,6 +586,7 @@ impl State {
         let builtin_xml: String = diameter::dictionary::DEFAULT_DICT_XML.to_string();
         State {
             mt: None,
+            net_batches: 0,
             pki: None,
             net_cache: Default::default(),
             rt: tokio::runtime::Builder::new_current_thread().enable_all().start_paused(true).build().unwrap(),
@@ -690,9 +692,14 @@ impl State {
 
     /// real-socket scenarios are executed in concurrent batches (they spend their time waiting for deadlines)
     pub fn run_net_batch(&mut self, batch: Vec<(usize, String)>) {
-        if self.mt.is_none() {
-            self.mt = Some(tokio::runtime::Builder::new_multi_thread().worker_threads(8).enable_all().build().unwrap());
+        // every batch runs on a multi-threaded runtime of its own, and the number of worker threads rotates (an application
+        // chooses it, or the number of cores does: 8, 3, 6, 5, 7 - powers of two and others)
+        let workers = [8usize, 3, 6, 5, 7][self.net_batches % 5];
+        self.net_batches += 1;
+        if let Some(old) = self.mt.take() {
+            old.shutdown_background();
         }
+        self.mt = Some(tokio::runtime::Builder::new_multi_thread().worker_threads(workers).enable_all().build().unwrap());
         if self.pki.is_none() {
             let pki = crate::net::make_pki();
             // trust is injected through SSL_CERT_FILE, set at process start (main.rs); the file is written here
